@@ -884,11 +884,21 @@ func (obj *Package) GetFunc(name string) (fi *FuncInfo) {
 // DefLambda registers a named lambda function. This is called by defun.
 func (obj *Package) DefLambda(name string, lam *Lambda, fc func(args List) Object, kind Symbol) (fi *FuncInfo) {
 	obj.mu.Lock()
-	if xlam := obj.lambdas[name]; xlam != nil {
+	if xlam := obj.lambdas[name]; xlam != nil && xlam != lam {
 		xlam.Doc = lam.Doc
 		xlam.Forms = lam.Forms
 		xlam.Closure = lam.Closure
 		xlam.Macro = lam.Macro
+		// Code compiled earlier calls xlam so calls created from now on
+		// must use it as well or they miss the next redefinition.
+		create := fc
+		fc = func(args List) Object {
+			f := create(args)
+			if dyn, ok := f.(*Dynamic); ok && dyn.Self == Caller(lam) {
+				dyn.Self = xlam
+			}
+			return f
+		}
 	} else {
 		obj.lambdas[name] = lam
 	}
